@@ -4,7 +4,15 @@ CHECKS = {
          "text": "Typing proof over a closed set: every call of the private unsafe cast is dominated by the TypeId equality guard, and for every admissible implementor of the sealed dimension traits rustc normalises source and destination type to the same type (obligations = discharged). Decides the 'identical types' clause for all storages/element types by parametricity.",
          "note": TB + "the dimension traits are sealed so the implementor list is closed",
          "technique": "guard-dominance over the typed tree + compiler-normalised type equality per trait implementor (rustc_private driver)"},
+ "C17": {"level": "proof",
+         "text": "Typing proof of immutability: deep UnsafeCell-reachability walk over the compiler's own types for all 17 ADTs, no statics, &self receivers on all 20 query/strategy methods, unsafe confined to the identity cast, stateful-callee deny table over all resolved MIR callees, and 108 Send+Sync + 4 shared-reference compile-time witnesses. In safe Rust this implies history/schedule independence; nothing is executed.",
+         "note": TB + "safe-Rust aliasing guarantees; interior mutability inside caller-chosen storage is out of scope by the property's wording",
+         "technique": "interior-mutability type walk + receiver/unsafe/statics rules over rustc facts + compile-time Send/Sync witness crate"},
+ "C13": {"level": "other",
+         "text": "Decides the structural necessary condition: no resolved callee in the library is a layout-sensitive ndarray API (frozen table of 41 entries checked against all MIR and THIR call sites), unsafe is confined to the identity cast, entry points are storage-generic. Reported defect D2 (into_shape_with_order) before its fix. Bit-identity itself is not measured.",
+         "note": TB + "ndarray's safe API outside the table is stride-aware (confirmed by reading ndarray 0.16.1)",
+         "technique": "type-resolved who-may-call deny table over MIR+THIR callees; unsafe-block confinement; signature facts"},
 }
 _PENDING = "check under construction (see DESIGN.md); not claimed yet"
 NOT_APPLICABLE = {p: _PENDING for p in
-  ["C01","C02","C03","C04","C05","C06","C07","C08","C09","C10","C11","C12","C13","C14","C15","C16","C17","C18","C20"]}
+  ["C01","C02","C03","C04","C05","C06","C07","C08","C09","C10","C11","C12","C14","C15","C16","C18","C20"]}
